@@ -329,6 +329,8 @@ def check_upgrade(ctx, f):
     F = ctx.facts
     b = f.built
     counter = owner_counter_field(F)
+    if counter is None:
+        return   # reported as a missing anchor by R03.2 (the owner counter is not an Arc<()> any more): nothing to compare with here
     # find the SharedObservable aggregate
     aggs = []
     for loc, s in b.iter_stmts():
@@ -336,7 +338,7 @@ def check_upgrade(ctx, f):
             aggs.append((loc, s))
     # the family constructor (fresh owner counter) must not be used here, neither called nor passed as a function item
     fam = [g for g in F.find(crate=EY) if g.built and any(s_["k"] == "assign" and s_["rv"]["k"] == "agg" and s_["rv"].get("adt") == "shared::SharedObservable"
-                                                         and contains(g.built.expr_of_op(s_["rv"]["ops"][s_["rv"]["fields"].index(counter)]), lambda x: x[0] == "call" and ecall_matches(x, r"Arc::<.*>::new$"))
+                                                         and counter in s_["rv"]["fields"] and contains(g.built.expr_of_op(s_["rv"]["ops"][s_["rv"]["fields"].index(counter)]), lambda x: x[0] == "call" and ecall_matches(x, r"Arc::<.*>::new$"))
                                                          for _, s_ in g.built.iter_stmts())]
     for g in fam:
         uses = [blk for blk, t in b.calls() if F.local_callee(f, t) is g]
